@@ -221,6 +221,21 @@ theorem taskAssignment_product {ps : List (Param α)} {r : Run α} (hr : r ∈ p
     rw [length_of_mem_prod hv]; simp [evals]
   rw [hp, ekeys, taskAssignment, L.map_snd_zip_of_length_eq _ _ hlen]
 
+/-- **both paths apply a run's changes in the same (declared) order**, product mode: whatever the setters do — also
+setters that depend on each other — the processor of the parallel task equals the processor of the sequential run. -/
+theorem parallel_applies_declared_order_product {σ : Type} (set : σ → String → α → σ) (s : σ)
+    {ps : List (Param α)} {r : Run α} (hr : r ∈ productRuns ps) :
+    applyChanges set s (taskAssignment ((enabledSteps ps).map (·.key)) (r.params.map (·.2))) =
+      applyChanges set s r.params := by
+  rw [taskAssignment_product hr]
+
+-- the order is behaviour: with setters that depend on each other, applying the same changes in sorted key order
+-- (instead of the declared order) configures another processor
+example :
+    let set : Nat → String → Nat → Nat := fun s k v => if k = "gain" then v else s + v
+    applyChanges set 0 [("voltage", 1), ("gain", 5)] = 5 ∧ applyChanges set 0 [("gain", 5), ("voltage", 1)] = 6 := by
+  decide
+
 -- non-vacuity: values [3,1,2] × ["z","x"] with pandas' sorted axes
 example :
     parGrid [[1, 2, 0], [1, 0]]
@@ -253,6 +268,14 @@ theorem createParams_sequential (d : String → α) (ps : List (Param α)) :
   have := assign_lookup d (ekeys ps).eraseDups p.key v hk'
   unfold assign at this
   simp only [lookupD, this]
+
+/-- … and sequential mode: task `n` configures exactly the processor that run `n` of the sequential path configures -/
+theorem parallel_applies_declared_order_sequential {σ : Type} (set : σ → String → α → σ) (s : σ)
+    (d : String → α) (ps : List (Param α)) :
+    (seqTuples d ps).map (fun t => applyChanges set s (taskAssignment (ekeys ps).eraseDups t)) =
+      (sequentialRuns d ps).map (fun r => applyChanges set s r.params) := by
+  have h := congrArg (List.map (applyChanges set s)) (createParams_sequential d ps)
+  simpa only [List.map_map, Function.comp_def] using h
 
 -- the code before the repair: 3 + 2 values gave 2 zipped combinations instead of 5 one-at-a-time runs
 example :
